@@ -205,6 +205,11 @@ func worker(c *vf.Ctx, bin string, w, workers, nsets, nexpr int) {
 				n, p := g.edgeProbe(k)
 				jobs = append(jobs, job{n, p})
 			}
+			// plus nexpr/8 selectors with several matchers of which one is a regular expression
+			// whose anchoring decides the answer
+			for k := 0; k < nexpr/8; k++ {
+				jobs = append(jobs, job{g.matcherProbe(k), g.params()})
+			}
 			ch := make(chan job)
 			var wg sync.WaitGroup
 			par := 4
